@@ -156,7 +156,7 @@ class XGen:
         if k < 0.12 and self.maybe(self.anomalies):
             blip = X("a:blip")                                     # no image
         else:
-            ext = "emf" if self.maybe(self.anomalies * 0.5) else r.choice(["png", "png", "jpeg", "gif", "PNG"])
+            ext = "emf" if self.maybe(self.anomalies * 0.5) else r.choice(["png", "png", "jpeg", "gif", "PNG", "Jpg", "GIF"])
             name = "media/image%d.%s" % (len(self.pkg.media) + 1, ext)
             data = bytes(r.randrange(256) for _ in range(r.choice([0, 1, 3, 8, 20])))
             if r.random() < self.linked_rate:
@@ -168,6 +168,9 @@ class XGen:
                 self.pkg.media["word/" + name] = data
                 if self.maybe(0.3):
                     self.pkg.content_types["overrides"].append(("/word/" + name, "image/" + ("x-emf" if ext == "emf" else ext.lower())))
+                elif ext != ext.lower() and ext not in [d[0] for d in self.pkg.content_types["defaults"]] and self.maybe(0.5):
+                    # a default declared in the letter case the part name uses, with a type of its own: extension defaults are looked up as written
+                    self.pkg.content_types["defaults"].append((ext, "image/x-declared-" + ext.lower()))
                 elif ext.lower() not in [d[0] for d in self.pkg.content_types["defaults"]] and self.maybe(0.5):
                     self.pkg.content_types["defaults"].append((ext.lower(), "image/" + ("x-emf" if ext == "emf" else ext.lower())))
                 rid = self.add_rel(name if self.maybe(0.8) else "/word/" + name,
